@@ -671,6 +671,13 @@ func (fc *FnCtx) makeInterface(x *ssa.MakeInterface, st *State, g *smt.Term, whe
 	ref := fc.S.Fresh("box", smt.Int)
 	fc.S.Assert(smt.Gt(ref, smt.IntLit(0)), "")
 	fc.S.Assert(smt.Eq(fc.dtype(ref), fc.typeID(xt)), "")
+	if _, isPtr := xt.Underlying().(*types.Pointer); isPtr && v.T != nil && kindOf(xt) == KRef {
+		// a converted / view pointer: if the object was allocated with exactly this
+		// dynamic type the interface value is the object itself (as for unconverted
+		// pointers); otherwise it is the separate box
+		obj := v.T
+		ref = fc.S.Name("cbox", smt.Ite(smt.And(smt.Neq(obj, smt.IntLit(0)), smt.Eq(fc.dtype(obj), fc.typeID(xt))), obj, ref))
+	}
 	if v.T != nil {
 		key := "box:" + fc.P.TypeStr(xt, nil)
 		fn := "unbox!" + smt.Ident(key)
